@@ -132,8 +132,14 @@ def run(repo: Repo, L: Ledger, tier: str):
             defs = [n.value for n in walk_shallow(wasm.node) if isinstance(n, ast.Assign) and is_name(n.targets[0], h.id)] if isinstance(h, ast.Name) else []
             pth = defs[0].args[0] if defs and isinstance(defs[0], ast.Call) and defs[0].args else None
             pdef = [n.value for n in walk_shallow(wasm.node) if isinstance(n, ast.Assign) and pth is not None and is_name(n.targets[0], norm(pth))]
-            ok5b = bool(pdef) and norm(pdef[0]).replace('"', "'") == f"{wasm.params()[2]}.with_suffix('.agp')"
-            why5b = f"AGP companion path is '{norm(pdef[0]) if pdef else None}', expected the FASTA path with suffix .agp"
+            pexpr = pdef[0] if pdef else pth  # through a local or written in place
+            ok5b = False
+            if isinstance(pexpr, ast.Call) and isinstance(pexpr.func, ast.Attribute) and pexpr.func.attr == "with_suffix" and norm(pexpr.func.value) == wasm.params()[2] and len(pexpr.args) == 1:
+                from ..finite import module_consts
+
+                sfx = try_fold(pexpr.args[0], env=dict(module_consts(wasm.module)), default=None)
+                ok5b = sfx == ".agp"
+            why5b = f"AGP companion path is '{norm(pexpr) if pexpr is not None else None}', expected the FASTA path with suffix .agp"
     L.check(ok5b, "R5", wasm.short + ":pair", "same assembly object streamed and formatted; <fasta>.agp", why5b, wasm.loc())
     # the handle streamed into is opened through the output-handle function with a binary mode for FASTA
     from ..finite import Opaque, fold_env
